@@ -26,6 +26,7 @@ THEOREMS = [
     "Optyx.Props.C17.compileHessian_general_entries",
     "Optyx.Props.C17.compileHessian_symm",
     "Optyx.Props.C17.hessFast_eq_general",
+    "Optyx.Props.C17.hess_second_partial_partial",
 ]
 ASSUMPTIONS = [
     "second derivatives are stated relative to Py.grad (∂/∂V_j of the expression Py.grad V_i e); turning them into the "
@@ -78,7 +79,9 @@ def cases_for(rng, thorough):
             orders = [(t, V) for t, V in orders if t.split("|")[1] in keep]
         for vt, V in orders:
             cases.append((vt, node, V, U))
-    n_rand = 1500 if thorough else 150
+        # the solver compiles the Hessian of the *negated* objective for maximisation (scipy_solver.py)
+        cases.append((tag + "|negated", -node, list(own), U))
+    n_rand = 4000 if thorough else 150
     for i in range(n_rand):
         U = gen.Universe(rng)
         e = gen.rand_expr(rng, U, rng.randint(1, 4 if thorough else 3), safe=True)
